@@ -16,7 +16,7 @@ use vh::conv::*;
 struct Quiet;
 impl EventListener for Quiet {}
 
-fn build(dir: &PathBuf, src: &str) -> Result<Blueprint, String> {
+fn build(dir: &PathBuf, src: &str, extra: &J, verbose: bool) -> Result<Blueprint, String> {
     let _ = std::fs::remove_dir_all(dir);
     std::fs::create_dir_all(dir.join("validators")).map_err(|e| e.to_string())?;
     std::fs::write(
@@ -25,10 +25,19 @@ fn build(dir: &PathBuf, src: &str) -> Result<Blueprint, String> {
     )
     .map_err(|e| e.to_string())?;
     std::fs::write(dir.join("validators").join("v.ak"), src).map_err(|e| e.to_string())?;
+    if let Some(files) = extra.as_object() {
+        for (rel, content) in files {
+            let p = dir.join(rel);
+            if let Some(parent) = p.parent() {
+                std::fs::create_dir_all(parent).map_err(|e| e.to_string())?;
+            }
+            std::fs::write(p, content.as_str().unwrap_or("")).map_err(|e| e.to_string())?;
+        }
+    }
     let mut project = Project::new(dir.clone(), Quiet).map_err(|e| format!("project: {e:?}"))?;
     let path = dir.join("plutus.json");
     project
-        .build(false, Tracing::All(TraceLevel::Silent), path.clone(), BlueprintExport::OnlyBinaryInterface, None)
+        .build(false, Tracing::All(if verbose { TraceLevel::Verbose } else { TraceLevel::Silent }), path.clone(), BlueprintExport::OnlyBinaryInterface, None)
         .map_err(|es| format!("build: {}", es.iter().map(|e| format!("{e:?}")).collect::<Vec<_>>().join(" | ").chars().take(1500).collect::<String>()))?;
     Project::<Quiet>::blueprint(&path).map_err(|e| format!("load: {e:?}"))
 }
@@ -134,7 +143,9 @@ fn run_case(case: &J) -> J {
     let dir = PathBuf::from(case["dir"].as_str().unwrap_or("/verif/work/bp/x"));
     let src = case["src"].as_str().unwrap_or("").to_string();
     let d2 = dir.clone();
-    let built = guarded(move || build(&d2, &src));
+    let extra = case["extra_files"].clone();
+    let verbose = case["verbose"].as_bool().unwrap_or(false);
+    let built = guarded(move || build(&d2, &src, &extra, verbose));
     let bp = match built {
         Err(p) => return json!({"id": id, "build": {"panic": p}}),
         Ok(Err(e)) => return json!({"id": id, "build": {"err": e}}),
